@@ -262,7 +262,7 @@ fn main() {
                 let hi = started.load(Ordering::SeqCst) as usize;
                 progress[t].fetch_add(1, Ordering::Relaxed);
                 let bad = klo < 0;
-                if bad || mine.len() < 1_000_000 {
+                if bad || mine.len() < 150_000 || it % 16 == 0 {
                     mine.push(json!({"t": t, "q": qk, "j": j, "lo": lo, "hi": hi, "klo": klo, "khi": khi, "note": if bad { note } else { String::new() }}));
                 }
                 if last_round {
